@@ -27,10 +27,10 @@ fn committee_of(stakes: &[Stake; 4]) -> Committee {
     m.n = 4;
     Committee { authorities: m, epoch: 1 }
 }
-/// One batch, symbolic stakes (own = stakes[0]), acknowledgements resolved in the concrete order ORDER (a permutation
-/// prefix of the peers 1,2,3; peers not listed never acknowledge). After every acknowledgement the batch must have been
-/// forwarded iff own stake + acknowledged stake >= quorum threshold.
-fn one_batch<const K: usize>(order: [usize; K]) {
+/// One batch, fully symbolic stakes (own = stakes[0]). The peers in ACKED have acknowledged before the quorum waiter looks at
+/// the batch, the others never do. The real run loop (lowered, see overlay.py LOWER_LOOPS / AWAIT_OR_NONE) must hand the
+/// batch to consensus iff own stake + acknowledged stake >= quorum threshold, exactly once, bytes unchanged.
+fn one_batch<const K: usize>(acked: [usize; K]) {
     tokio::CTL.lock().unwrap().select_start = 0;
     let stakes: [Stake; 4] = vwit::any_u32s::<4>();
     let total: u64 = stakes[0] as u64 + stakes[1] as u64 + stakes[2] as u64 + stakes[3] as u64;
@@ -44,42 +44,37 @@ fn one_batch<const K: usize>(order: [usize; K]) {
     let (a2, h2) = oneshot::channel::<Bytes>();
     let (a3, h3) = oneshot::channel::<Bytes>();
     let mut acks = [Some(a1), Some(a2), Some(a3)];
-    let batch: Vec<u8> = vec![7, 7, 7];
+    let mut got: u64 = stakes[0] as u64;
+    let mut k = 0;
+    while k < K {
+        let peer = acked[k];
+        let a = acks[peer - 1].take().unwrap();
+        let _ = a.send(Bytes::from_static(b"Ack"));
+        got += stakes[peer] as u64;
+        k += 1;
+    }
+    let c: [u8; 3] = vwit::any_bytes::<3>();
+    let batch: Vec<u8> = vec![c[0], c[1], c[2]];
     let w = tokio::noop_waker();
     let mut cx = Context::from_waker(&w);
-    let mut forwarded = false;
     {
-        let mut fut = std::pin::pin!(qw.run());
         let s = tx_message.send(QuorumWaiterMessage { batch, handlers: vec![(pk(1), h1), (pk(2), h2), (pk(3), h3)] });
         let mut s = std::pin::pin!(s);
         assert!(matches!(s.as_mut().poll(&mut cx), Poll::Ready(Ok(()))));
-        assert!(fut.as_mut().poll(&mut cx).is_pending(), "C12 quorum waiter task terminated");
-        // nothing acknowledged yet: own stake alone
-        let mut acked: u64 = stakes[0] as u64;
-        let mut k = 0;
-        loop {
-            let now = rx_batch.len() > 0;
-            if now && !forwarded {
-                assert!(acked >= q, "C12 batch handed to consensus before a quorum acknowledged it");
-                forwarded = true;
-            }
-            if !forwarded {
-                assert!(acked < q || k == 0, "C12 batch withheld although a quorum acknowledged it");
-            }
-            if k >= K {
-                break;
-            }
-            let peer = order[k];
-            let a = acks[peer - 1].take().unwrap();
-            let _ = a.send(Bytes::from_static(b"Ack"));
-            acked += stakes[peer] as u64;
-            assert!(fut.as_mut().poll(&mut cx).is_pending(), "C12 quorum waiter task terminated");
-            k += 1;
-        }
+        let f = qw.run();
+        let mut f = std::pin::pin!(f);
+        assert!(f.as_mut().poll(&mut cx).is_ready(), "lowered run loop did not return when idle");
     }
-    assert!(rx_batch.len() <= 1, "C12 batch forwarded twice");
-    vwit::cover!(forwarded);
-    vwit::cover!(!forwarded);
+    if got >= q {
+        assert!(rx_batch.len() == 1, "C12 batch not handed to consensus although a quorum acknowledged it (or handed twice)");
+        let b = rx_batch.try_pop().unwrap();
+        assert!(b.len() == 3 && b[0] == c[0] && b[1] == c[1] && b[2] == c[2], "C12 forwarded batch differs from the acknowledged one");
+        std::mem::forget(b);
+    } else {
+        assert!(rx_batch.len() == 0, "C12 batch handed to consensus before a quorum acknowledged it");
+    }
+    vwit::cover!(got >= q);
+    vwit::cover!(got < q || K == 3);
     std::mem::forget(qw);
     std::mem::forget((tx_message, rx_batch, acks, committee));
 }
@@ -96,60 +91,7 @@ macro_rules! qw_h {
 pub fn stub_format(_args: std::fmt::Arguments<'_>) -> String {
     String::new()
 }
-qw_h!(c12_acks_123, [1, 2, 3]);
-qw_h!(c12_acks_312, [3, 1, 2]);
-qw_h!(c12_acks_2_only, [2]);
-qw_h!(c12_acks_23, [2, 3]);
-
-/// Equal stakes, two batches in flight one after the other: forwarded in order, bytes unchanged, each only after its own
-/// two acknowledgements (acknowledgements of the first batch never count for the second).
-#[kani::proof]
-#[kani::unwind(12)]
-#[kani::stub(std::fmt::format, stub_format)]
-fn c12_two_batches() {
-    tokio::CTL.lock().unwrap().select_start = 0;
-    let committee = committee_of(&[1, 1, 1, 1]);
-    let (tx_message, rx_message) = channel(10);
-    let (tx_batch, mut rx_batch) = channel(10);
-    let mut qw = QuorumWaiter { committee: committee.clone(), stake: 1, rx_message, tx_batch };
-    let w = tokio::noop_waker();
-    let mut cx = Context::from_waker(&w);
-    let c: [u8; 2] = vwit::any_bytes::<2>();
-    {
-        let mut fut = std::pin::pin!(qw.run());
-        // batch A with three handles, batch B with three handles, both queued before anything is acknowledged
-        let (a1, h1) = oneshot::channel::<Bytes>();
-        let (a2, h2) = oneshot::channel::<Bytes>();
-        let (a3, h3) = oneshot::channel::<Bytes>();
-        let (b1, g1) = oneshot::channel::<Bytes>();
-        let (b2, g2) = oneshot::channel::<Bytes>();
-        let (b3, g3) = oneshot::channel::<Bytes>();
-        for (batch, hs) in [(vec![c[0], 1u8], vec![(pk(1), h1), (pk(2), h2), (pk(3), h3)]), (vec![c[1], 2u8, 2u8], vec![(pk(1), g1), (pk(2), g2), (pk(3), g3)])] {
-            let s = tx_message.send(QuorumWaiterMessage { batch, handlers: hs });
-            let mut s = std::pin::pin!(s);
-            assert!(matches!(s.as_mut().poll(&mut cx), Poll::Ready(Ok(()))));
-        }
-        assert!(fut.as_mut().poll(&mut cx).is_pending());
-        assert!(rx_batch.len() == 0, "C12 batch forwarded without any acknowledgement");
-        // two peers acknowledge B first: B must not overtake A and A must not be forwarded on B's acknowledgements
-        let _ = b1.send(Bytes::from_static(b"Ack"));
-        let _ = b2.send(Bytes::from_static(b"Ack"));
-        assert!(fut.as_mut().poll(&mut cx).is_pending());
-        assert!(rx_batch.len() == 0, "C12 acknowledgements of another batch were counted");
-        let _ = a1.send(Bytes::from_static(b"Ack"));
-        assert!(fut.as_mut().poll(&mut cx).is_pending());
-        assert!(rx_batch.len() == 0, "C12 batch forwarded below quorum");
-        let _ = a3.send(Bytes::from_static(b"Ack"));
-        assert!(fut.as_mut().poll(&mut cx).is_pending());
-        // A reached 3 of 4; B already had its two acknowledgements, so it follows immediately
-        assert!(rx_batch.len() == 2, "C12 batches not forwarded once their quorum is complete");
-        let x = rx_batch.try_pop().unwrap();
-        let y = rx_batch.try_pop().unwrap();
-        assert!(x.len() == 2 && x[0] == c[0] && x[1] == 1, "C12 first batch changed or overtaken");
-        assert!(y.len() == 3 && y[0] == c[1] && y[1] == 2 && y[2] == 2, "C12 second batch changed");
-        std::mem::forget((x, y, a2, b3));
-    }
-    vwit::cover!(c[0] != c[1]);
-    std::mem::forget(qw);
-    std::mem::forget((tx_message, rx_batch, committee));
-}
+qw_h!(c12_acked_none, []);
+qw_h!(c12_acked_2, [2]);
+qw_h!(c12_acked_31, [3, 1]);
+qw_h!(c12_acked_123, [1, 2, 3]);
